@@ -2344,14 +2344,14 @@ where
         let before = inp.save().clone();
         match self.parser_a.go::<M>(inp) {
             Ok(out) => {
-                // A succeeded -- go back to the beginning and try B
+                // A succeeded -- go back to the beginning and try B (keeping the errors A emitted)
                 let after = inp.save();
-                inp.rewind(before);
+                inp.rewind_input(before);
 
                 match self.parser_b.go::<Check>(inp) {
                     Ok(()) => {
                         // B succeeded -- go to the end of A and return its output
-                        inp.rewind(after);
+                        inp.rewind_input(after);
                         Ok(out)
                     }
                     Err(()) => {
@@ -2663,7 +2663,8 @@ where
         let before = inp.save();
         match self.parser.go::<M>(inp) {
             Ok(out) => {
-                inp.rewind(before);
+                // Only the position is reset: errors emitted by the (kept) sub-parser must survive
+                inp.rewind_input(before);
                 Ok(out)
             }
             Err(()) => Err(()),
